@@ -243,7 +243,10 @@ def _cold(ctx, tier, rec, rng):
         n = 0
         for j in range(runs):
             try:
-                p = subprocess.run([sys.executable, "-m", "pmv.coldstart", path, str(ctx.shard * 31 + j * 7 + ctx.seed), "8"],
+                # interpreter flags a deployment may use: assertions off (-O), docstrings stripped as well (-OO)
+                flags = ([], ["-O"], ["-OO"])[(j + ctx.shard) % 3]
+                ctx.hit("replay_cold_start_flags_" + ("".join(flags) or "default"))
+                p = subprocess.run([sys.executable] + flags + ["-m", "pmv.coldstart", path, str(ctx.shard * 31 + j * 7 + ctx.seed), "8"],
                                    capture_output=True, text=True, timeout=120, env=env, cwd=core.VERIF)
                 out = json.loads(p.stdout.strip().splitlines()[-1]) if p.stdout.strip() else None
             except Exception:
@@ -253,8 +256,8 @@ def _cold(ctx, tier, rec, rng):
                 continue
             n += 1
             for w in out[:2]:
-                ctx.violation("result-differs-in-first-concurrent-calls-of-a-process:" + w["function"].split(".")[-1], monitor="replay",
-                              case=None, **w)
+                ctx.violation("result-differs-in-a-fresh-interpreter:" + w["function"].split(".")[-1], monitor="replay",
+                              case=None, interpreter_flags="".join(flags) or "default", **w)
         ctx.hit("replay_cold_start_processes", n)
     finally:
         try:
